@@ -4,7 +4,11 @@
 var header_init(var head, var type, int alloc)
 __CPROVER_requires(__CPROVER_is_fresh(head, sizeof(struct Header)))
 __CPROVER_ensures(__CPROVER_return_value == (char*)head + sizeof(struct Header))
+#if CELLO_ALLOC_CHECK == 1 && CELLO_MAGIC_CHECK == 1
 __CPROVER_ensures(((struct Header*)head)->type == type && ((struct Header*)head)->alloc == (var)(intptr_t)alloc && ((struct Header*)head)->magic == (var)CELLO_MAGIC_NUM)
+#else
+__CPROVER_ensures(((struct Header*)head)->type == type)
+#endif
 __CPROVER_assigns(__CPROVER_object_whole(head))
 ;
 struct Header* header(var self)
